@@ -34,6 +34,10 @@ def run(prog: Program, rep: Report, tier: str):
     c01_pair.rule_planar_inverse(prog, rep)
     from .lints import rule_stable_bijections
     rule_stable_bijections(prog, rep, "C01.stable")
+    # the numerically inverted network has an inverse only while it is increasing in every coordinate: positive
+    # diagonal blocks need a positive weight-norm row scale for all raw parameter values
+    from .c09 import rule_positive_diagonal
+    rule_positive_diagonal(prog, rep, R="C01.monotone")
     if tier == "thorough":
         from ..audit import audit_c01
         audit_c01(prog, rep)
